@@ -20,6 +20,8 @@ H = Harness("C10", ["OQ.Base.CaseEq", "OQ.Stats.Measure", "OQ.Stats.MeasureCases
             "(get_expectation_value_from_frequencies on arbitrary count dictionaries), counts (get_counts and "
             "from_counts round trips), from_counts/add_counts (arbitrary dictionaries incl. zero counts), distribution, "
             "parities (get_parities_from_measurements values and pair tallies, valid and invalid), check_parity; "
+            "'-wide' = registers of 65-90 qubits with few shots whose distinct bitstrings differ only on qubits >= 64 and "
+            "operators on those qubits (about 6 percent of the stream, for expval / counts / distribution / parities / efreq); "
             "non-trivial = at least two distinct bitstrings among at least two shots (and at least two terms where an "
             "operator is involved)")
 
@@ -50,6 +52,51 @@ def gen_shots(rng, w, n):
     pool = rng.sample(range(2 ** w), pool_n)
     weights = [rng.choice([1, 1, 2, 5, 20]) for _ in pool]
     return [format(x, f"0{w}b") if w else "" for x in rng.choices(pool, weights, k=n)]
+
+def gen_wide(rng):
+    """Wide registers (65-90 qubits, few shots): the distinct bitstrings agree on the low qubits and differ
+    only on qubits >= 64 (occasionally also on a low one); operators touch the high qubits."""
+    w = rng.randint(65, 90)
+    base = [rng.randint(0, 1) for _ in range(w)]
+    high = list(range(64, w))
+    pool = [list(base)]
+    for _ in range(rng.randint(1, 3)):
+        v = list(base)
+        for q in rng.sample(high, rng.randint(1, min(3, len(high)))):
+            v[q] ^= 1
+        if rng.random() < 0.15:
+            v[rng.randrange(64)] ^= 1
+        if v not in pool:
+            pool.append(v)
+    n = rng.choice([2, 4, 4, 8, 16, 3, 5, 7])
+    shots = [list(p) for p in pool] + [rng.choice(pool) for _ in range(max(0, n - len(pool)))]
+    rng.shuffle(shots)
+    shots = ["".join(map(str, sh)) for sh in shots]
+    op = []
+    for _ in range(rng.randint(1, 4)):
+        r = rng.random()
+        if r < 0.5:
+            s = rng.sample(high, rng.randint(1, min(2, len(high))))
+        elif r < 0.85:
+            s = rng.sample(high, 1) + rng.sample(range(64), rng.randint(1, 2))
+        elif r < 0.93:
+            s = rng.sample(range(64), 1)
+        else:
+            s = []
+        c = dyadic(rng, 64, 4, allow_zero=False)
+        op.append([[c.numerator, c.denominator], [[q, "Z"] for q in sorted(s)]])
+    kind = rng.choice(["expval", "expval", "expval", "counts", "distribution", "parities", "efreq"])
+    if kind == "expval":
+        return dict(kind="expval", shots=shots, op=op, bessel=rng.random() < 0.3, as_term=False, wide=True)
+    if kind == "parities":
+        return dict(kind="parities", shots=shots, op=op, why=None, wide=True)
+    if kind == "efreq":
+        freq = {}
+        for sh in shots:
+            freq[sh] = freq.get(sh, 0) + 1
+        return dict(kind="efreq", freq=[[k, c] for k, c in freq.items()], marked=sorted(q for q, _ in op[0][1]),
+                    as_set=True, wide=True)
+    return dict(kind=kind, shots=shots, wide=True)
 
 def gen_n(rng):
     return rng.choice([1, 2, 4, 8, 16, 32, 64, 128, 256]) if rng.random() < 0.6 else rng.randint(1, 200)
@@ -126,6 +173,12 @@ FIXED = [
     dict(kind="parities", shots=["", ""], op=[[[1, 1], Z(0)]], why="width0"),
     dict(kind="parities", shots=["10", "01"], op=[[[1, 1], [[0, "Y"]]]], why="nonising"),
     dict(kind="parities", shots=["011", "110", "011", "100"], op=[[[1, 2], Z(0, 1)], [[2, 1], []], [[-3, 2], Z(2)], [[1, 4], Z(0, 1, 2)]], why=None),
+    # registers wider than a machine word: shots that differ only on qubits >= 64
+    dict(kind="expval", shots=["0" * 72, "0" * 70 + "10", "0" * 72, "0" * 72], op=[[[1, 1], Z(70)], [[1, 2], Z(3, 70)], [[-3, 4], Z(71)]],
+         bessel=False, as_term=False, wide=True),
+    dict(kind="counts", shots=["1" * 65, "1" * 64 + "0", "1" * 65], wide=True),
+    dict(kind="distribution", shots=["01" * 40, "01" * 39 + "11", "01" * 40, "01" * 39 + "00"], wide=True),
+    dict(kind="parities", shots=["0" * 66, "0" * 65 + "1", "0" * 64 + "10"], op=[[[1, 1], Z(64)], [[1, 1], Z(65)], [[2, 1], Z(0, 65)]], why=None, wide=True),
     dict(kind="efreq", freq=[], marked=[], as_set=True),
     dict(kind="efreq", freq=[["", 3]], marked=[], as_set=True),
     dict(kind="efreq", freq=[["01", 3], ["11", 1]], marked=[], as_set=False),
@@ -141,6 +194,9 @@ def gen(rng, tier):
     for inp in FIXED:
         yield dict(inp)
     for _ in range(n):
+        if rng.random() < 0.06:
+            yield gen_wide(rng)
+            continue
         r = rng.random()
         if r < 0.40:
             w = rng.randint(1, 8)
@@ -422,10 +478,15 @@ def run_check_parity(inp):
     return dict(chk=chk, oracle_ok=ok, oracle_msg="" if ok else f"check_parity({rows[0]}, {marked}) = {out}; vector {vec}",
                 kind="check_parity", nontrivial=len(marked) >= 2 and len(set(rows)) >= 2)
 
+def _wide(inp, r):
+    if inp.get("wide"):
+        r["kind"] = r.get("kind", "case") + "-wide"
+    return r
+
 RUN = dict(expval=run_expval, efreq=run_efreq, counts=run_counts, from_counts=run_from_counts,
            distribution=run_distribution, parities=run_parities, check_parity=run_check_parity)
 
 def run_case(inp):
-    return RUN[inp["kind"]](inp)
+    return _wide(inp, RUN[inp["kind"]](inp))
 
 H.main(gen, run_case, {})
